@@ -43,6 +43,16 @@ claimed.update({
  "C20": dict(text="Deductive proof, for every annotation map and container name, of the two sample plugins' request handlers: device-injector picks the container-scoped key before the pod-scoped before the bare key by presence (getAnnotation), decodes exactly that annotation, converts every decoded device/mount/CDI name field by field into the adjustment in order, and returns no adjustment at all when any decoding fails; ulimit-adjuster looks at the container-scoped key only, normalises each type as RLIMIT_+TrimPrefix(ToUpper(t)), fails the request for an unknown type or hard<soft, and otherwise emits exactly one rlimit per decoded entry with its limits. The adjustment builders of pkg/api they use are proved too.",
              note="The YAML decoder is modelled as an unknown deterministic library: it stores an arbitrary well-formed value and an arbitrary error (assumption listed in the evidence); strings.ToUpper is an uninterpreted function; the path from the handler through the stub and ttrpc is covered by C15, not here. "+TB, ref="5 C20"),
 })
+claimed.update({
+ "C08": dict(text="Deductive proof of the sequential half of the property (restricted claim): the registration loop holds the sync lock exclusively from before the runtime's snapshot callback until after activation and releases it exactly once per iteration on every path (call-site assertions at syncFn and sortPlugins, loop invariant on the lock typestate); activation (append + sort) happens under the adaptation lock; BlockPluginSync takes one shared hold and Unblock releases exactly that hold once however often it is called.",
+             note="The interleaving theorem itself (exactly-once over all schedules) is not decidable by contracts on sequential code and is not claimed; newExternalPlugin and plugin.start are trusted stubs. "+TB, ref="S3 / 5 C08"),
+ "C13": dict(text="Deductive proof of the OCI generator wrappers: cgroups path, OOM score, args, rlimits (appended in order), all CPU fields, memory limit(+swap), pids, unified (every key set, all others untouched, for every map iteration order), annotations (a set wins over a removal of the same key for every iteration order; lone removals delete; other keys untouched), hooks/devices/mounts/CDI/block-IO/RDT as exact call traces to the embedded generator (which adder, how often, in which order, with which converted value), mount order (the comparator is a strict total order on destinations and the list is sorted by it after every mount adjustment), Hook.ToOCI/Mount.ToOCI/DupStringSlice conversions, and Adjust (order, error propagation, mounts sorted, rlimits last).",
+             note="The embedded runtime-tools generator's loop-free setters are executed from their real bodies; its functions with loops (hugepage limit, device and mount list operations, environment) are external calls with assumed frames, so 'appears in the spec' for those families rests on the library (assumption listed in the evidence). AdjustEnv has only a safety/trace-count contract: order dependence inside it is detected through the loop structure, not through a functional postcondition. Host mount propagation is trusted. "+TB, ref="S3 / 5 C13"),
+ "C16": dict(text="Deductive proof of the sequential clauses (restricted claim): Start on a started stub changes nothing and fails; every successful Start creates new doneC/srvErrC/cfgErrC channels and records all four transport objects; every failed Start leaves the stub not started, releases the lock, and - once the connection had been set up - forgets the connection so that a retry reconnects; close() resets started/conn/partial sync state; every exit of the multiplexer's reader has closed the multiplexer.",
+             note="Termination within bounded time, Wait/notification timing and the late-notification clause (no session identity in connClosed: observation F10) are schedule/timing properties and are not claimed. connect/register are trusted stubs. "+TB, ref="S3 / 5 C16"),
+ "C18": dict(text="Deductive proof of the parts that are ordinary code (restricted claim): the drop-in lookup reads <idx>-<name>.conf first and <name>.conf only if the first does not exist, stops at the first hit and fails on any other error; a launched plugin gets exactly the three environment variables (name, index, socket 3) and exactly one extra file; the socket pair is created AF_UNIX/SOCK_STREAM|SOCK_CLOEXEC; stop() kills and reaps exactly the launched process and nothing for external or WebAssembly plugins; index syntax and index order come from C17/C06.",
+             note="What the operating system does with it (exec, descriptor inheritance in the child, reaping) and directory discovery are not covered; isWasm, plugin.connect and the wasm loader are trusted stubs. "+TB, ref="S3 / 5 C18"),
+})
 na_reason={
  "C08": "the property is about interleavings of concurrent registrations and creations under an RW lock; function contracts over sequential code cannot express 'for every schedule' (DESIGN.md section 5, C08). The lock discipline of the sequential pieces is covered under C06/C19.",
  "C13": "not yet built: the functions delegate to the external opencontainers generator; see DESIGN.md section 5, C13 for what is planned/possible",
